@@ -182,6 +182,25 @@ def build_props(pid):
     return theorems, closed, dt
 
 
+def coqchk_props(pid, timeout=1500):
+    """thorough tier: the compiled Props/<pid>.vo and everything it depends on, re-checked by the independent checker coqchk;
+    returns the axiom report (must be <none> in all four classes)"""
+    rc, out, dt = sh(['coqchk', '-o', '-silent', '-Q', '.', 'RC', 'RC.Props.%s' % pid], cwd=COQ, timeout=timeout)
+    if rc != 0:
+        raise CheckFailure('proof', 'coqchk rejects Props/%s.vo or a file it depends on: %s' % (pid, out[-800:]))
+    rep = {}
+    for key, label in (('axioms', 'Axioms'), ('type_in_type', 'Constants/Inductives relying on type-in-type'),
+                       ('unsafe_fixpoints', 'Constants/Inductives relying on unsafe (co)fixpoints'),
+                       ('assumed_positive', 'Inductives whose positivity is assumed')):
+        m = re.search(r'\* %s: *(.*?)(?=\n\* |\Z)' % re.escape(label), out, re.S)
+        rep[key] = ' '.join(m.group(1).split()) if m else '?'
+    bad = {k: v for k, v in rep.items() if v != '<none>'}
+    if bad:
+        raise CheckFailure('hygiene', 'coqchk reports for Props/%s.vo: %s' % (pid, bad))
+    rep['seconds'] = round(dt, 1)
+    return rep
+
+
 HYGIENE_RE = re.compile(r'\b(Admitted|admit|Axiom|Axioms|Parameter|Parameters|Conjecture|Hypothesis|Variable|Variables|'
                         r'Admit Obligations|bypass_check|Unset Guard Checking|Unset Positivity Checking|'
                         r'Unset Universe Checking|type-in-type|impredicative-set|Abort)\b')
